@@ -134,6 +134,32 @@ CHECKS = {
         "Header emptiness is read from the emitted header text (BindingIndex enumerators, on* functions, setup body).",
         "DESIGN.md §4 C14",
     ),
+    "C07": (
+        RM + "hostile documents (ODD shapes, token-aware mutants, truncations, token soup) through the real library in the three "
+        "modes under catch_unwind with a CPU watchdog, through the real CLI (exit status), and under valgrind memcheck (thorough)",
+        "exploration",
+        "Thousands of documents per run: hand-written odd shapes of every construct, valid generated documents, syntax-preserving token "
+        "mutations (swap/duplicate/delete/replace tokens with other tokens of the pool), truncations at every token class, and token "
+        "soup; each is translated in generate, reject and omit mode; a panic, abort, CPU-budget overrun, or CLI exit status other than "
+        "0/1 is a violation; an accepted document must yield well-formed XML.",
+        "Termination is restated as a CPU budget (10 s per translation; the median is milliseconds). Stack exhaustion by pathological "
+        "nesting depth beyond 200 levels is not driven.",
+        "DESIGN.md §4 C07",
+    ),
+    "C15": (
+        RM + "the real CLI under strace: syscall-level observation of every file-mutating call, tree snapshots (inode, mtime, mode, "
+        "sha256) around every run, and fault enumeration by strace injection (SIGKILL at, or errno from, each file-mutating syscall)",
+        "fault_enumeration",
+        "Path shapes (plain, ./, dir/../dir, absolute, parent-escaping, several sources; nested, spaced, non-ASCII names) x options "
+        "(-O, --no-dynamic-binding, --no-lowercase-file-name): the set of new files must be exactly the expected one, every mutating "
+        "syscall must name an expected output, a .tmp sibling or a created parent; escaping sources must be refused with nothing written; "
+        "re-runs must keep inode+mtime; edit/regenerate histories; then for a regeneration over existing old outputs one run per "
+        "file-mutating syscall with SIGKILL injected at its entry (every crash point the syscall trace distinguishes) and errno "
+        "injections: every output path must hold its complete old or complete new bytes.",
+        "Crash points are enumerated at syscall granularity for the traced schedule (the CLI is single-threaded); power-loss durability "
+        "(fsync ordering) is not part of the property and not judged. stderr is never a fault target.",
+        "DESIGN.md §4 C15",
+    ),
     "C16": (
         RM + "emitted support headers compiled (g++ -std=c++17 -Wall -Werror=return-type) against API declarations generated from "
         "the same type information + mini-uic output; token-scan monitor; hostile string literals compiled and printed",
